@@ -1425,6 +1425,14 @@ class PyCdlib:
 
                 d.set_extent_location(current_extent,
                                       current_extent - part_start)
+                if d.is_parent():
+                    # The parent entry names the File Entry of the directory
+                    # above this one (the root directory is its own parent),
+                    # which was placed before this directory was reached.
+                    parent_entry = udf_file_entry.parent
+                    if parent_entry is None:
+                        parent_entry = udf_file_entry
+                    d.icb.log_block_num = parent_entry.extent_location() - part_start
                 if not d.is_parent() and d.file_entry is not None:
                     if d.is_dir():
                         udf_file_entries.append((d.file_entry, d))
